@@ -1608,7 +1608,25 @@ def src_search(ctx):
                 more += ['sbs:5:11', 'sr:5:1']
             if tag == 's' and DV_HOW.get(m) != 's':
                 more += ['sk:5:1']
-            h = rerun(ctx, {'init': SRC_CELLS, 'steps': steps + more + ['ob:1', 'ob:2']})
+            try:
+                # (1) the derived object alone: it must be a snapshot of the receiver's VALUE (remaining bits, remaining references)
+                h = rerun(ctx, {'init': SRC_CELLS, 'steps': steps})
+                src = int(steps[-1].split(':')[1])
+                if not ctx.failures and len(h.pool.objs) == src + 2 and h.cut is None:
+                    a, b = h.pool.objs[src], h.pool.objs[src + 1]
+
+                    def value(o):
+                        bits = o._bits if O.tag_of(o) == 'b' else o.bits
+                        refs = o._refs if O.tag_of(o) == 'b' else o.refs
+                        return bits.to01(), [id(c) for c in refs[getattr(o, 'ref_offset', 0):]]
+                    if value(a) != value(b):
+                        ctx.fail(f'snapshot-value:{tag}.{m}', f'the object returned by {m}() does not hold the remaining bits / references of its source',
+                                 {'init': SRC_CELLS, 'steps': steps, 'check': 'snapshot-value'}, str(value(b))[:200], str(value(a))[:200])
+                        return
+                # (2) then writes through every slice / builder in reach, and all cells observed again
+                rerun(ctx, {'init': SRC_CELLS, 'steps': steps + more + ['ob:1:hash', 'ob:2:hash']})
+            except (ValueError, IndexError, KeyError) as e:
+                ctx.notes.append(f'src_search: history {steps} not runnable: {type(e).__name__}: {e}')
             ctx.case(('src-search', tuple(steps)))
             if ctx.failures:
                 return
@@ -1645,6 +1663,19 @@ def replay(ctx, payload):
         for k in PROBES:
             if name == k or name.startswith(k):
                 run_probe(ctx, k)
+        return
+    if inp.get('check') == 'snapshot-value':
+        h = rerun(ctx, inp)
+        src = int(inp['steps'][-1].split(':')[1])
+        if len(h.pool.objs) == src + 2:
+            a, b = h.pool.objs[src], h.pool.objs[src + 1]
+
+            def value(o):
+                bits = o._bits if O.tag_of(o) == 'b' else o.bits
+                refs = o._refs if O.tag_of(o) == 'b' else o.refs
+                return bits.to01(), [id(c) for c in refs[getattr(o, 'ref_offset', 0):]]
+            if value(a) != value(b):
+                ctx.fail('snapshot-value:' + inp['steps'][-1], 'the derived object does not hold the remaining bits / references of its source', inp)
         return
     if 'steps' in inp or 'init' in inp:
         h = rerun(ctx, inp)
